@@ -158,7 +158,7 @@ static int new_obj(var p, int kind, int cls) {
 #if CELLO_ALLOC_CHECK == 1
   if (header(p)->alloc isnt (var)AllocHeap) HV("C19", "C19:wrong-alloc-class:new", "new %s is not tagged AllocHeap", HKNAME[kind]);
 #endif
-  if (arena_block_size(hdr_of(p)) != sizeof(struct Header) + size(want))
+  if (arena_block_size(hdr_of(p)) < sizeof(struct Header) + size(want))
     HV("C19", "C19:size-mismatch:new", "block of new %s has %zu bytes, header+size(type) is %zu", HKNAME[kind], arena_block_size(hdr_of(p)), sizeof(struct Header) + size(want));
   return oid;
 }
